@@ -6,6 +6,13 @@ Driver for the value/heap model: `heapcopy <s-expression>`.
 `(S …)` is a struct or tuple object, `(A …)` an array, `(V tag x)` an enum value.  The value is built in
 thread 1's heap, deep-copied (`Value::deep_copy`) into thread 2's heap and the copy is rendered back;
 `owned` = every object reachable from the copy lives in thread 2's heap.
+
+`heapalias <captures> | <ops>`: the captures of one task, written with datum labels for sharing and cycles
+(`&3=(A 1 2)` names a node, `&3` refers to it); they are built in thread 1's heap and copied with ONE map
+(`spawnCopy`, as `SpawnTask` does) into thread 2's heap.  ops, separated by `;`, act on the task's copies (`T`)
+or on the spawner's originals (`M`), addressed by a path `<capture>.<slot>.<slot>…`:
+  `T set <path> <slot> <int>` | `T push <path> <int>` | `T show <path>` (same with `M`).
+Answer: the shown renderings joined by `;`, then ` owned` / ` shared`.
 -/
 namespace Abra.Drv.HeapDrv
 open Abra.Heap
@@ -15,6 +22,10 @@ inductive SVal where
   | bool (b : Bool)
   | str (s : List Char)
   | node (kind : Char) (tag : Nat) (kids : List SVal)
+  /-- `&n=<node>` -/
+  | lab (n : Nat) (v : SVal)
+  /-- `&n` -/
+  | ref (n : Nat)
 
 def isDigit (c : Char) : Bool := '0' ≤ c ∧ c ≤ '9'
 
@@ -31,6 +42,15 @@ def parseVal : Nat → List Char → Option (SVal × List Char)
   | 0, _ => none
   | f + 1, cs =>
     match skipSp cs with
+    | '&' :: rest =>
+      let r := takeWhileC isDigit rest
+      match (String.ofList r.1).toNat?, r.2 with
+      | some n, '=' :: rest' =>
+        match parseVal f rest' with
+        | some (v, rest'') => some (.lab n v, rest'')
+        | none => none
+      | some n, rest' => some (.ref n, rest')
+      | none, _ => none
     | 't' :: rest => some (.bool true, rest)
     | 'f' :: rest => some (.bool false, rest)
     | '\'' :: rest =>
@@ -79,6 +99,8 @@ def build (t : Nat) : SVal → Heaps → Val × Heaps
   | .int n, H => (.int n, H)
   | .bool b, H => (.bool b, H)
   | .str s, H => let r := alloc H t (.str (s.map (·.toNat))); (.str r.1, r.2)
+  | .lab _ v, H => build t v H
+  | .ref _, H => (.int 0, H)
   | .node k tag kids, H =>
     let r := buildList t kids H
     if k = 'A' then let a := alloc r.2 t (.array r.1); (.array a.1, a.2)
@@ -92,6 +114,93 @@ def buildList (t : Nat) : List SVal → Heaps → List Val × Heaps
     let rs := buildList t vs r.2
     (r.1 :: rs.1, rs.2)
 end
+
+/-- builder state: heaps and the labels seen so far -/
+structure BSt where
+  H : Heaps
+  labs : List (Nat × Val)
+
+def labLookup (labs : List (Nat × Val)) (n : Nat) : Option Val :=
+  match labs with
+  | [] => none
+  | (k, v) :: rest => if k = n then some v else labLookup rest n
+
+mutual
+/-- build a value with sharing and cycles: a labelled node is allocated (with placeholder slots) and its
+    label recorded before its children are built, then filled -/
+def buildL (t : Nat) : SVal → Option Nat → BSt → Option (Val × BSt)
+  | .int n, _, s => some (.int n, s)
+  | .bool b, _, s => some (.bool b, s)
+  | .str cs, l, s =>
+    let r := alloc s.H t (.str (cs.map (·.toNat)))
+    some (.str r.1, { H := r.2, labs := match l with | some n => (n, .str r.1) :: s.labs | none => s.labs })
+  | .ref n, _, s => (labLookup s.labs n).map (·, s)
+  | .lab n v, _, s => buildL t v (some n) s
+  | .node k tag kids, l, s =>
+    let ph : Obj := if k = 'A' then .array (kids.map fun _ => Val.int 0)
+      else if k = 'V' then .variant tag (.int 0) else .struct (kids.map fun _ => Val.int 0)
+    let r := alloc s.H t ph
+    let me : Val := if k = 'A' then .array r.1 else if k = 'V' then .variant r.1 else .struct r.1
+    let s1 : BSt := { H := r.2, labs := match l with | some n => (n, me) :: s.labs | none => s.labs }
+    match buildLs t kids s1 with
+    | some (ks, s2) =>
+      let obj : Obj := if k = 'A' then .array ks else if k = 'V' then .variant tag (ks.headD (.int 0)) else .struct ks
+      some (me, { s2 with H := putObj s2.H r.1 obj })
+    | none => none
+def buildLs (t : Nat) : List SVal → BSt → Option (List Val × BSt)
+  | [], s => some ([], s)
+  | v :: vs, s =>
+    match buildL t v none s with
+    | some (x, s1) =>
+      match buildLs t vs s1 with
+      | some (xs, s2) => some (x :: xs, s2)
+      | none => none
+    | none => none
+end
+
+/-- all values of a top-level list (the captures) -/
+def parseVals : Nat → List Char → Option (List SVal)
+  | 0, _ => none
+  | f + 1, cs =>
+    match skipSp cs with
+    | [] => some []
+    | cs' =>
+      match parseVal 200 cs' with
+      | some (v, rest) => (parseVals f rest).map (v :: ·)
+      | none => none
+
+/-- follow slots from a value -/
+def follow (H : Heaps) : Val → List Nat → Option Val
+  | v, [] => some v
+  | v, i :: is =>
+    match ptr? v with
+    | some a =>
+      match lookup H a with
+      | some obj => match obj.kids[i]? with
+        | some k => follow H k is
+        | none => none
+      | none => none
+    | none => none
+
+def resolve (H : Heaps) (roots : List Val) (path : List Nat) : Option Val :=
+  match path with
+  | [] => none
+  | c :: is => match roots[c]? with
+    | some v => follow H v is
+    | none => none
+
+/-- every address reachable from the work list (graph search with a visited list) -/
+def reachAddrs : Nat → Heaps → List Val → List Addr → List Addr
+  | 0, _, _, seen => seen
+  | _, _, [], seen => seen
+  | f + 1, H, v :: todo, seen =>
+    match ptr? v with
+    | none => reachAddrs f H todo seen
+    | some a =>
+      if seen.contains a then reachAddrs f H todo seen
+      else match lookup H a with
+        | some obj => reachAddrs f H (obj.kids ++ todo) (a :: seen)
+        | none => reachAddrs f H todo (a :: seen)
 
 mutual
 def showTree : Tree → String
@@ -124,6 +233,74 @@ def handleHeapCopy (ws : List String) : String :=
       | some tr, some xs => showTree tr ++ (if xs.all (·.tid = 2) then " owned" else " shared")
       | _, _ => "render-fault"
     | none => "copy-fault"
+  | none => "bad-op"
+
+def parsePath (w : String) : Option (List Nat) := (w.splitOn ".").mapM String.toNat?
+
+/-- one op: (heaps, shown so far) → … ; `none` = the op does not apply (bad path / not an object) -/
+def aliasOp (orig copy : List Val) (H : Heaps) (shown : List String) (ws : List String) :
+    Option (Heaps × List String) :=
+  match ws with
+  | [side, "set", p, i, k] =>
+    let roots := if side = "T" then copy else orig
+    match parsePath p, i.toNat?, k.toInt? with
+    | some path, some i, some k =>
+      match resolve H roots path with
+      | some v => match ptr? v with
+        | some a => some (setSlot H a i (.int k), shown)
+        | none => none
+      | none => none
+    | _, _, _ => none
+  | [side, "push", p, k] =>
+    let roots := if side = "T" then copy else orig
+    match parsePath p, k.toInt? with
+    | some path, some k =>
+      match resolve H roots path with
+      | some (.array a) => match lookup H a with
+        | some (.array es) => some (putObj H a (.array (es ++ [.int k])), shown)
+        | _ => none
+      | _ => none
+    | _, _ => none
+  | [side, "show", p] =>
+    let roots := if side = "T" then copy else orig
+    match parsePath p with
+    | some path =>
+      match resolve H roots path with
+      | some v => match render 64 H v with
+        | some tr => some (H, shown ++ [showTree tr])
+        | none => some (H, shown ++ ["unrenderable"])
+      | none => none
+    | none => none
+  | _ => none
+
+def aliasOps (orig copy : List Val) : List (List String) → Heaps → List String → Option (Heaps × List String)
+  | [], H, shown => some (H, shown)
+  | op :: ops, H, shown =>
+    match aliasOp orig copy H shown op with
+    | some (H', shown') => aliasOps orig copy ops H' shown'
+    | none => none
+
+def splitOps (ws : List String) : List (List String) :=
+  (ws.foldl (fun (acc : List (List String)) w =>
+      if w = ";" then [] :: acc else match acc with
+        | cur :: rest => (cur ++ [w]) :: rest
+        | [] => [[w]]) [[]]).reverse.filter (!·.isEmpty)
+
+def handleHeapAlias (ws : List String) : String :=
+  let capWords := ws.takeWhile (· ≠ "|")
+  let opWords := (ws.dropWhile (· ≠ "|")).drop 1
+  match parseVals 50 (" ".intercalate capWords).toList with
+  | some svs =>
+    match buildLs 1 svs { H := fun _ => [], labs := [] } with
+    | some (caps, st) =>
+      match spawnCopy 64 st.H 2 caps with
+      | some (caps', H') =>
+        let owned := (reachAddrs 10000 H' caps' []).all (·.tid = 2)
+        match aliasOps caps caps' (splitOps opWords) H' [] with
+        | some (_, shown) => ";".intercalate shown ++ (if owned then " owned" else " shared")
+        | none => "bad-op"
+      | none => "copy-fault"
+    | none => "bad-label"
   | none => "bad-op"
 
 end Abra.Drv
